@@ -860,7 +860,8 @@ fn main() {
                 run(&mut w, &mut drv, &mut rep, "exhaustive", evs);
             }
         }
-        rep.exhaustive = true;
+        // exhaustive only within the stated sub-scope, hence not flagged as an exhaustive stream
+        rep.note(format!("exhaustive sub-scope: one link (ttl 300 s) on one account, every event sequence of length <= {depth} over {{X+P, C0, C1, K0, K1, R, +1 s, +300 s, +900 s}} up to the stated symmetries (no dangling slot, no trailing or doubled clock step)"));
         let nr = args.cases(500, 12_000);
         for i in 0..nr {
             let mut r = Rng::for_case(args.seed, i);
